@@ -7,6 +7,7 @@ import (
 	"fmt"
 	"os"
 	"path/filepath"
+	"strings"
 	"sync"
 	"sync/atomic"
 	"time"
@@ -57,6 +58,22 @@ func writeTree(dir, name string, exts []string, g *gen.G, t tv.T) string {
 	return name + ".json"
 }
 
+// virtualName: the same layer named through another supported extension (no such file
+// exists: the tools find the real one by its stem) - for a fifth of the inputs.
+func virtualName(g *gen.G, file string) string {
+	if !g.P(0.2) {
+		return file
+	}
+	ext := fsx.Ext(file)
+	stem := strings.TrimSuffix(file, "."+ext)
+	for _, e := range []string{"json", "yaml", "toml", "yml", "jsonl"} {
+		if e != ext && g.P(0.4) {
+			return stem + "." + e
+		}
+	}
+	return file
+}
+
 func tool(dir string, argv ...string) fsx.RunResult {
 	return fsx.Run(dir, append([]string{filepath.Join(binDir(), argv[0])}, argv[1:]...), nil, nil, 20*time.Second, false)
 }
@@ -87,12 +104,16 @@ func bklrEvent(r *Run, g *gen.G, layers []tv.T) []byte {
 			f = "yaml"
 		}
 		os.WriteFile(filepath.Join(d, op), []byte("stale: $required\n"), 0o644)
-		res = tool(d, "bklr", "-o", op, top)
+		res = tool(d, "bklr", "-o", op, virtualName(g, top))
 		if res.Exit == 0 {
 			res.Stdout, _ = os.ReadFile(filepath.Join(d, op))
 		}
 	} else {
-		res = tool(d, "bklr", "-f", f, top)
+		ff := f
+		if f == "json" && g.P(0.3) {
+			ff = "json-pretty"
+		}
+		res = tool(d, "bklr", "-f", ff, virtualName(g, top))
 	}
 	ev := map[string]any{"ev": "Tool", "tool": "bklr", "layers": layers, "ok": res.Exit == 0, "plain": true,
 		"out": tv.T{"n", ""}, "second": tv.T{"n", ""}, "bkl": map[string]any{"ok": false, "required": false}}
@@ -304,7 +325,7 @@ func bkldRun(d string, g *gen.G, baseName string, base, target tv.T, tag string)
 	bf := writeTree(d, baseName, allExts, g, base)
 	tf := writeTree(d, "target"+tag, allExts, g, target)
 	lf := baseName + ".lay" + tag + "." + g.Pick([]string{"yaml", "json", "yml", "jsonl"})
-	res := tool(d, "bkld", "-o", lf, bf, tf)
+	res := tool(d, "bkld", "-o", lf, virtualName(g, bf), virtualName(g, tf))
 	out := map[string]any{"ok": res.Exit == 0 && !res.TimedOut && !res.Panicked, "layer": tv.T{"n", ""},
 		"applied": map[string]any{"ok": false, "outs": []any{}}, "stderr": trunc(string(res.Stderr), 200)}
 	if out["ok"] != true {
@@ -592,7 +613,11 @@ func bkliEvent(r *Run, g *gen.G, inputs []tv.T, kf string) []byte {
 		files[i] = writeTree(d, fmt.Sprintf("in%d", i), allExts, g, in)
 	}
 	cf := "common." + g.Pick([]string{"yaml", "json"})
-	res := tool(d, append([]string{"bkli", "-o", cf}, files...)...)
+	named := make([]string, len(files))
+	for i, f := range files {
+		named[i] = virtualName(g, f)
+	}
+	res := tool(d, append([]string{"bkli", "-o", cf}, named...)...)
 	ev := map[string]any{"ev": "Tool", "tool": "bkli", "inputs": inputs, "ok": res.Exit == 0 && !res.TimedOut && !res.Panicked,
 		"out": tv.T{"n", ""}, "selfs": []any{}, "migrate": []any{}, "stderr": trunc(string(res.Stderr), 200)}
 	if kf != "" {
